@@ -18,9 +18,9 @@ import (
 
 func init() {
 	Props["C15"] = &harness.Prop{
-		ID: "C15",
-		Rule: "histories: alphabet of 14 inputs (1005, 1006, MSM4 and MSM7 of GPS, Galileo, GLONASS and BeiDou with cells, 1230, an unknown type, non-RTCM text, a CRC-broken frame); every sequence of length <=3 (quick) / <=4 (thorough) through ONE handler at both log levels; each element is decoded (Analyse) and displayed twice; oracle: decoded structure deep-equal and text (without the MSM time lines) equal to those of a fresh handler, second display identical, raw bytes unchanged; value copies of a delivered message: what consumer A does with its copy (String, Analyse, field assignments) leaves consumer B's copy deep-equal to a pristine one. concurrency: two (thorough: also three) threads decoding and displaying frames on separate handlers and on value copies of one message, with scheduling points at every function and loop entry of rtcm/handler, rtcm/utils, rtcm/header and the six MSM and two station packages; every schedule with <=1 (quick) / <=2 (thorough) preemptions; oracle: every result equals the sequential baseline. Non-trivial = histories of length >=2 / distinct schedule traces",
-		Assumptions: []string{"interleavings inside unsynchronised code are explored at function/loop-entry granularity; 'no data race' at the memory-model level is outside a cooperative scheduler and only touched by the auxiliary -race pass", "the two MSM time lines ('Time ...', 'Start of ... week ...') are removed before comparing texts, as the statement excludes them"},
+		ID:             "C15",
+		Rule:           "histories: alphabet of 18 inputs (1005, 1006, MSM4 and MSM7 of GPS, Galileo, GLONASS and BeiDou with cells, four MSM messages whose cell masks have the same value and length but the shapes 2x3, 3x2, 1x6 and 6x1, 1230, an unknown type, non-RTCM text, a CRC-broken frame); every sequence of length <=3 (quick) / <=4 (thorough) through ONE handler at both log levels; each element is decoded (Analyse) and displayed twice; oracle: decoded structure deep-equal and text (without the MSM time lines) equal to those of a fresh handler, second display identical, raw bytes unchanged; value copies of a delivered message: what consumer A does with its copy (String, Analyse, field assignments) leaves consumer B's copy deep-equal to a pristine one. concurrency: two (thorough: also three) threads decoding and displaying frames on separate handlers and on value copies of one message, with scheduling points at every function and loop entry of rtcm/handler, rtcm/utils, rtcm/header and the six MSM and two station packages; every schedule with <=1 (quick) / <=2 (thorough) preemptions; oracle: every result equals the sequential baseline. Non-trivial = histories of length >=2 / distinct schedule traces",
+		Assumptions:    []string{"interleavings inside unsynchronised code are explored at function/loop-entry granularity; 'no data race' at the memory-model level is outside a cooperative scheduler and only touched by the auxiliary -race pass", "the two MSM time lines ('Time ...', 'Start of ... week ...') are removed before comparing texts, as the statement excludes them"},
 		Pre:            c15Histories,
 		Scenarios:      c15Scenarios,
 		QuickBudget:    60 * time.Second,
@@ -44,6 +44,26 @@ func c15Alphabet() []c15Input {
 		sigs := []ref.MSMSig{{RangeDelta: 100, PhaseDelta: -200, Lock: 3, CNR: 40, RateDelta: 7}, {RangeDelta: -5, PhaseDelta: 6, Lock: 1, Half: true, CNR: 30, RateDelta: -9}, {RangeDelta: 1, PhaseDelta: 2, Lock: 2, CNR: 20, RateDelta: 3}}
 		add(fmt.Sprint(t), ref.MSMFrame(h, sats, sigs, i%3))
 	}
+	// messages whose masks have the same numeric value and the same number of
+	// bits but a different shape: a cache keyed on less than the full header
+	// confuses them, and only in one order
+	shape := func(name string, t int, nsat, nsig int) {
+		cm := []bool{true, true, false, true, false, true}
+		h := &ref.MSMHeader{Type: t, Station: 9, Timestamp: 777000, SatMask: ^uint64(0) << uint(64-nsat), SigMask: (^uint32(0) << uint(32-nsig)) >> 1, CellMask: cm}
+		sats := make([]ref.MSMSat, nsat)
+		for i := range sats {
+			sats[i] = ref.MSMSat{Whole: 60 + uint(i), Ext: uint(i), Frac: uint(100 * i), Rate: int64(10 * i)}
+		}
+		sigs := make([]ref.MSMSig, 4)
+		for i := range sigs {
+			sigs[i] = ref.MSMSig{RangeDelta: int64(50*i + 1), PhaseDelta: int64(-70*i - 1), Lock: uint(i + 1), CNR: uint(20 + i), RateDelta: int64(i)}
+		}
+		add(name, ref.MSMFrame(h, sats, sigs, 0))
+	}
+	shape("1077-2x3", 1077, 2, 3)
+	shape("1077-3x2", 1077, 3, 2)
+	shape("1074-1x6", 1074, 1, 6)
+	shape("1074-6x1", 1074, 6, 1)
 	add("1230", ref.TypedFrame(1230, 8, func(i int) byte { return byte(i * 3) }))
 	add("unknown-4001", ref.TypedFrame(4001, 5, func(i int) byte { return byte(i) }))
 	add("non-rtcm", []byte("$GPGGA,1*47\r\n"))
@@ -73,6 +93,14 @@ type c15Result struct {
 
 // decodeDisplay runs one input through GetMessage, Analyse and String (twice).
 func decodeDisplay(h *handler.Handler, in []byte) (res c15Result, fault string) {
+	defer func() {
+		if p := recover(); p != nil {
+			if mcrt.Aborting() {
+				panic(p) // the scheduler is tearing the execution down
+			}
+			fault = "panic while decoding or displaying: " + firstLine(fmt.Sprint(p))
+		}
+	}()
 	orig := append([]byte{}, in...)
 	buf := append([]byte{}, in...)
 	m, _ := h.GetMessage(buf)
@@ -162,21 +190,29 @@ func c15Histories(r *ev.Run) {
 		r.Count(n, 0, tr*4, n)
 		// value copies handed to two consumers
 		for i, in := range alpha {
-			h := handler.New(T0, lvl)
-			m, _ := h.GetMessage(append([]byte{}, in.bytes...))
-			a, b, pristine := *m, *m, *m
-			_ = a.String()
-			handler.Analyse(&a)
-			a.ErrorMessage, a.MessageType, a.SentAt, a.Readable = "changed by consumer A", -5, "x", "junk"
-			a.RawData = nil
-			if !reflect.DeepEqual(b, pristine) {
-				fail("consumer-copy-affected-by-other-consumer", lvl, []string{in.name}, "B's copy changed after A used its own")
-			}
-			tb := stripTimeLines(b.String())
-			if tb != base[i].text {
-				fail("consumer-copy-display-differs", lvl, []string{in.name}, "B's display after A used its copy")
-			}
-			r.Count(1, 0, 4, 1)
+			i, in := i, in
+			func() {
+				defer func() {
+					if p := recover(); p != nil {
+						fail("panic while a consumer used its copy: "+firstLine(fmt.Sprint(p)), lvl, []string{in.name}, "value copies")
+					}
+				}()
+				h := handler.New(T0, lvl)
+				m, _ := h.GetMessage(append([]byte{}, in.bytes...))
+				a, b, pristine := *m, *m, *m
+				_ = a.String()
+				handler.Analyse(&a)
+				a.ErrorMessage, a.MessageType, a.SentAt, a.Readable = "changed by consumer A", -5, "x", "junk"
+				a.RawData = nil
+				if !reflect.DeepEqual(b, pristine) {
+					fail("consumer-copy-affected-by-other-consumer", lvl, []string{in.name}, "B's copy changed after A used its own")
+				}
+				tb := stripTimeLines(b.String())
+				if tb != base[i].text {
+					fail("consumer-copy-display-differs", lvl, []string{in.name}, "B's display after A used its copy")
+				}
+				r.Count(1, 0, 4, 1)
+			}()
 		}
 	}
 	r.Sample(map[string]interface{}{"part": "histories", "history": []string{"1077", "non-rtcm", "1077"}, "alphabet": len(alpha)})
@@ -225,7 +261,7 @@ func c15Scenarios(tier string) []*mcrt.Scenario {
 	// sequential baselines
 	base := map[string]c15Result{}
 	for _, a := range alpha {
-		res, _ := decodeDisplay(handler.New(T0, slog.LevelDebug), a.bytes)
+		res, _ := decodeDisplay(handler.New(T0, slog.LevelDebug), a.bytes) // recovers panics itself
 		base[a.name] = res
 	}
 	var scs []*mcrt.Scenario
